@@ -48,8 +48,33 @@ func genC11(t *rapid.T) *c11Case {
 	for i := 0; i < 3; i++ {
 		sz = append(sz, [2]int{rapid.SampledFrom(c11Sides).Draw(t, "sw"), rapid.SampledFrom(c11Sides).Draw(t, "sh")})
 	}
+	// focus: a fifth of the histories consist mostly of decodes of freshly generated VP8 (or VP8L)
+	// streams with the history's shared sizes: header syntax no encoder here writes (segment data
+	// without a map, deltas, per-segment filter levels, ...) meets a pooled decoder that has just
+	// handled another such stream of the same or a larger size
+	focus := rapid.SampledFrom([]string{"", "", "", "", "", "", "", "", "vp8", "vp8l"}).Draw(t, "focus")
 	for i := 0; i < n; i++ {
 		op := c11Op{Kind: rapid.SampledFrom([]string{"enc", "enc", "enc", "enc", "dec", "dec", "cfg", "animenc", "animdec"}).Draw(t, "op")}
+		if focus != "" && rapid.IntRange(0, 4).Draw(t, "focusOp") != 0 {
+			op.Kind = "dec"
+			d := sz[rapid.IntRange(0, len(sz)-1).Draw(t, "fszi")]
+			if focus == "vp8" {
+				p := gen.DrawVP8(t, 40)
+				p.W, p.H = d[0], d[1]
+				op.Name, op.File = "vp8gen", xref.Simple("VP8 ", p.Build())
+			} else {
+				p := gen.DrawVP8L(t, 24)
+				p.W, p.H = d[0], d[1]
+				bs, _ := p.Build()
+				op.Name, op.File = "vp8lgen", xref.Simple("VP8L", bs)
+			}
+			if rapid.IntRange(0, 5).Draw(t, "focusCut") == 0 {
+				op.File = gen.TruncateFix(op.File, rapid.IntRange(0, len(op.File)).Draw(t, "cutfix"))
+				op.Name += "/cutfix"
+			}
+			c.Ops = append(c.Ops, op)
+			continue
+		}
 		switch op.Kind {
 		case "enc":
 			d := sz[rapid.IntRange(0, len(sz)-1).Draw(t, "szi")]
